@@ -241,6 +241,10 @@ ADDED = {
            ' Round 4: andes.utils.paths.get_config_path (result depends on the files present at call time) with a native replay.'
            ' Rounds 5-6: bounded precedence check with every argparse default present.',
 }
+ROUND7 = {'C01': ' Round 7: PFlow.nr_step evaluation-point clause (the Jacobian solved with is assembled after the model update of the same step, or kept); island sets of enumerated networks with parallel circuits as a bounded premise.', 'C02': ' Round 7: npfunc.safe_div (the helper the generated code calls: quotient where the divisor is non-zero, the default elsewhere).', 'C03': ' Round 7: PFlow.nr_step evaluation-point clause with a wrapped-call replay (PV to PQ conversion enabled).', 'C04': ' Round 7: island sets of enumerated networks with parallel circuits as a bounded premise (shared with C12).', 'C05': ' Round 7: declaration obligations for the hand-over of a static generator (every share service equals p0s * gammap / q0s * gammaq; the powers are fields p / q of the generator named by gen).', 'C06': ' Round 7: stub replay of Fault.apply_fault / clear_fault over every combination of in-fault / enabled / due flags; overlapping faults in the event runs.', 'C07': ' Round 7: Model.set and System._store_tf imported (an inertia changed after initialisation is the one integrated with).', 'C08': ' Round 7: time constants of a case with several devices whose blocks carry a literal time constant.', 'C09': ' Round 7: native replay of the pegged-state write-back of System.fg_to_dae for states that are private copies; a loop a contract speaks about must exist.', 'C10': ' Round 7: Model._one_idx2uid and Model.idx2uid (vector form: out[j] = uid[idx[j]]); bounded registries of integers added in every order, every query form.', 'C12': ' Round 7: System.summary (reports; empty frame); outage patterns once silently and once with the summary printed, two-bus pockets.', 'C14': ' Round 7: Model.refresh_inputs_arg imported; per-call argument lists of a system restored from a snapshot hold the objects of the name table.', 'C17': ' Round 7: andes.io.parse (True iff the format is known, the base case was read and the additional file, if named, was read) with a stub-parser replay.', 'C18': ' Round 7: Model.set imported (every block sharing a time constant gets the new value).', 'C19': ' Round 7: Model.idx2uid vector form; indices that merely look like a registered one are refused.', 'C20': ' Round 7: andes.main._run_mp_proc (every case is started with all keywords of the caller) with a recorder replay of both multi-case front ends.'}
+for _k, _v in ROUND7.items():
+    ADDED[_k] = ADDED.get(_k, '') + _v
+
 TECH_SUFFIX = ('; native replay of counter-models and of undecided obligations on the real code; bounded stand-ins are labelled and '
                'not counted')
 
